@@ -167,6 +167,22 @@ def rule_duration_formula(ctx, rule="R4", tab=None, adt=TT.TS):
                    "(must be delay + that)" % (terms.p_show(thr), terms.p_show(dur)), tab["body"]["span"],
                    what="end-threshold-differs-from-duration")
     ctx.floor(rule, "Ended rows with finite repeat", n, 2)
+    # "cycle x (repeats + 1)" is formed from the configured count: the count is rounded to f32 once, after the increment
+    # (`(n + 1) as f32` in a wider integer type or in f64).  `n as f32 + 1.0` rounds twice and loses the last cycle for
+    # counts above 2^24 where n and n + 1 round differently.
+    k = 0
+    sites = [("get_duration[%d]" % i, p.ret, p.conds) for i, p in enumerate(fin_rows)]
+    sites += [("end-test/" + r.label, ends_t, r.path.conds) for r in tab["rows"] if r.kind == "Ended"
+              for (ends_t, v, s) in r.path.conds if ends_t[0] == "bin" and ends_t[1] == "Lt" and ends_t[3] == S]
+    for (label, t, conds) in sites:
+        bad = _count_rounded_early(t, roles)
+        if bad is None:
+            continue
+        k += 1
+        ctx.ob(rule, "count-rounded-once/" + label, not bad,
+               "the repeat count must be converted to f32 only after the + 1 (one rounding): %s" % [show(b) for b in bad],
+               tab["body"]["span"] if label.startswith("end-test") else gd["span"], what="count-rounded-before-increment")
+    ctx.floor(rule, "terms converting the repeat count to a float", k, 2)
     # fail closed: every finite repeat variant must be able to end (a variant without an Ended row never terminates)
     ends_of = {r.repeat for r in tab["rows"] if r.kind == "Ended"}
     for var in ("None", "Times"):
@@ -177,6 +193,54 @@ def rule_duration_formula(ctx, rule="R4", tab=None, adt=TT.TS):
         if r.repeat == "Infinite":
             ctx.ob(rule, "never-ended/" + r.label, r.kind != "Ended", "an infinitely repeating timeline never ends",
                    tab["body"]["span"], what="infinite-ends")
+
+
+def _is_count(t, roles):
+    rep = TT.fld(roles["repeat"])
+    if t[0] == "field" and t[1][0] == "variant" and t[1][1] == rep and t[1][2] == "Times":
+        return True
+    return t[0] == "call" and t[1].endswith("Repeat::as_ordinal")
+
+
+def _count_rounded_early(t, roles):
+    """None: the term does not mention the repeat count.  Otherwise the list of sub-terms in which the count reaches f32
+    as anything but `count + 1` computed exactly (integer arithmetic or f64, which holds every u32 exactly)."""
+    if not any(_is_count(x, roles) for x in pse.subterms(t)):
+        return None
+    bad = []
+
+    def exact(x):
+        """x is an exact (integer / f64) expression of the count: its polynomial, else None"""
+        try:
+            return terms.poly(x)
+        except terms.NotPoly:
+            return None
+
+    def walk(x, in_f32):
+        if not isinstance(x, tuple) or not x:
+            return
+        if _is_count(x, roles):
+            if in_f32:
+                bad.append(x)
+            return
+        if x[0] == "cast" and x[1] in ("IntToFloat", "FloatToFloat") and len(x) > 3 and str(x[3]) == "f32" and \
+                any(_is_count(y, roles) for y in pse.subterms(x[2])) and not (len(x) > 4 and str(x[4]) == "f32"):
+            cnt = [y for y in pse.subterms(x[2]) if _is_count(y, roles)][0]
+            p = exact(x[2])
+            if p != terms.p_add(terms.p_atom(cnt), terms.p_const(1)):
+                bad.append(x)
+            return
+        if x[0] == "cast" and x[1] == "IntToFloat" and len(x) > 3 and str(x[3]) == "f64":
+            walk(x[2], False)
+            return
+        for y in x[1:]:
+            if isinstance(y, tuple):
+                walk(y, in_f32)
+            elif isinstance(y, list):
+                for z in y:
+                    walk(z, in_f32)
+    walk(t, False)
+    return bad
 
 
 def _infinite_decided(p, roles):
